@@ -21,6 +21,12 @@ constexpr size_t RESET_END = 10;
 
 hex::HexSimIO io(std::cin, std::cout);
 
+#ifdef HEX_VERIF
+// Verification hook; compiled only with -DHEX_VERIF. Called after every
+// evaluation of the design in run(); return false to stop the loop.
+bool (*hexVerifTick)(VerilatedContext *, Vhex_pkg *) = nullptr;
+#endif
+
 void load(const char *filename,
           const std::unique_ptr<Vhex_pkg> &top) {
 
@@ -115,6 +121,9 @@ int run(const std::unique_ptr<VerilatedContext> &contextp,
     }
     // Evaluate the design.
     top->eval();
+#ifdef HEX_VERIF
+    if (hexVerifTick && !hexVerifTick(contextp.get(), top.get())) break;
+#endif
     if (top->i_clk) {
       cycle_count++;
     }
